@@ -7,8 +7,10 @@ import time
 
 ROOT = os.path.dirname(os.path.dirname(os.path.abspath(__file__)))
 REPO = os.environ.get("GTWRAP_REPO", "/repo")
-EVIDENCE_DIR = os.path.join(ROOT, "evidence")
-REPLAY_DIR = os.path.join(ROOT, "replays")
+# GTWRAP_REPO / VERIF_EVIDENCE_DIR / VERIF_REPLAY_DIR are only set by tools/seed_matrix.py (experiments on scratch
+# worktrees); the registered checks run with the defaults: /repo, /verif/evidence, /verif/replays.
+EVIDENCE_DIR = os.environ.get("VERIF_EVIDENCE_DIR", os.path.join(ROOT, "evidence"))
+REPLAY_DIR = os.environ.get("VERIF_REPLAY_DIR", os.path.join(ROOT, "replays"))
 KNOWN_FINDINGS = os.path.join(ROOT, "known_findings.json")
 PY = os.path.join(ROOT, ".venv", "bin", "python")
 
@@ -115,7 +117,8 @@ class Report:
             # generic
             "evaluations": max(1, int(self.paths)),
             "distinct_nontrivial": max(2, int(self.extra.get("distinct", self.paths))) if self.paths >= 2 else 2,
-            "rule": self.extra.get("rule", "each evaluation is one symbolic execution path or one SMT query; distinct = distinct path conditions / queries"),
+            "rule": self.extra.get("rule", "each evaluation is one symbolic execution path or one SMT query; distinct = distinct path conditions / queries")
+                    + " | distinct_nontrivial counts only paths that satisfied the pre-condition and reached the post-condition (Engine X) or the number of definitions/queries (Engines G, L)",
             "samples": self.samples or ["(no sample recorded)"],
             "exhaustive": False,
             "engine": sorted({c["engine"] for c in self.conditions}),
